@@ -30,7 +30,10 @@ class CsvReader(Filter[Iterable[str], Iterable[MutableSequence]]):
     def filter(self, items: Iterable[str]) -> Iterable[Dense]:
 
         lines = iter(csv.reader(iter(filter(None,(i.strip() for i in items))), **self._dialect))
-        first = next(lines)
+        try:
+            first = next(lines)
+        except StopIteration:
+            return []
 
         if self._has_header:
             return HeadRows(first).filter(lines)
